@@ -138,7 +138,7 @@ var nonEntryPath = map[string]string{
 	"subplain": "00/notes.txt",                               // foreign file inside a cache subdirectory
 	"subtmp":   "ff/" + hex64 + "-d.tmp",                     // entry name plus another suffix
 	"subdash":  "00/foreign-a",                               // ambiguous: foreign file with the entry suffix
-	"otherdir": "tmp/" + hex64 + "-a",                        // entry-like name in a directory that is no cache subdirectory
+	"otherdir": "tmp/" + hex64 + "-a",                        // entry-like name in a directory that is no cache subdirectory (every second world: nested inside one, 3c/backup/deeper/)
 }
 
 // lutimes sets both times of the link itself (utimensat with AT_SYMLINK_NOFOLLOW).
@@ -157,6 +157,7 @@ func lutimes(path string, t syscall.Timespec) error {
 }
 
 var corruptSeq int64
+var otherdirSeq int64
 var bulkSeq int64
 var recordSeq int64
 var linkWorldSeq int64
@@ -362,6 +363,10 @@ func build(cs *caseJ, root string) (*world, error) {
 		rel, ok := nonEntryPath[f]
 		if !ok {
 			return nil, fmt.Errorf("unknown non-entry %q", f)
+		}
+		if f == "otherdir" && atomic.AddInt64(&otherdirSeq, 1)%2 == 0 {
+			// the other realisation of "a directory that is no cache subdirectory": one nested inside a cache subdirectory
+			rel = "3c/backup/deeper/" + hex64 + "-a"
 		}
 		w.paths[f] = rel
 		if age == absent {
